@@ -1,7 +1,130 @@
-import Ruint.Base
-/-! C20 — facade parity. Placeholder: theorems added by g9. -/
-namespace Ruint.C20
+import Ruint.Lemmas.FacadeC
 
--- theorems added by g9
+/-!
+# C20 — operator, wrapper and trait facades agree with the inherent methods
+
+The weight of this property is on the correspondence: harness `c20.rs` evaluates every facade entry
+point (350 of them: 6 operator shapes × 8 operators, shifts by every primitive type and by `Uint`, the
+`Bits` wrapper, num-traits, num-integer, subtle, `Sum`/`Product`, zeroize) **and** the corresponding
+inherent method in the same process and the driver judges parity (including panic parity).
+A pure forward has nothing to prove beyond that. The theorems below are for the facades that
+compute something themselves (`Model/Facade.lean`): they equal the plain comparison / the inherent
+method's value-level specification for every width and all operands.
+-/
+namespace Ruint.C20
+open Ruint Ruint.Facade
+
+/-- `ct_eq` (slice compare of the limbs) is `==` on the numbers. -/
+theorem ct_eq_spec (bits : ℕ) (a b : List ℕ) (ha : Canon bits a) (hb : Canon bits b) :
+    ctEq a b = decide (val a = val b) := by
+  have h1 := ctEq_iff a b
+  have h2 : a = b ↔ val a = val b :=
+    ⟨fun h => by rw [h], fun h => val_inj a b (by rw [ha.1, hb.1]) ha.2.1 hb.2.1 h⟩
+  rw [Bool.eq_iff_iff, h1, h2]; simp
+
+/-- `ct_gt`: the big-endian limb scan with the `(equal, greater)` flags is `>` on the numbers. -/
+theorem ct_gt_spec (bits : ℕ) (a b : List ℕ) (ha : Canon bits a) (hb : Canon bits b) :
+    ctGt a b = decide (val a > val b) :=
+  ctGt_eq a b (by rw [ha.1, hb.1]) ha.2.1 hb.2.1
+
+/-- `ct_lt` is `<` on the numbers. -/
+theorem ct_lt_spec (bits : ℕ) (a b : List ℕ) (ha : Canon bits a) (hb : Canon bits b) :
+    ctLt a b = decide (val a < val b) :=
+  ctLt_eq a b (by rw [ha.1, hb.1]) ha.2.1 hb.2.1
+
+/-- `conditional_select(a, b, choice)` is `if choice { b } else { a }` (limb for limb, so canonical). -/
+theorem conditional_select_spec (bits : ℕ) (a b : List ℕ) (c : Bool) (ha : Canon bits a) (hb : Canon bits b) :
+    conditionalSelect a b c = if c then b else a :=
+  conditionalSelect_eq a b c (by rw [ha.1, hb.1])
+
+/-- `bit_ct` agrees with `bit` on its documented domain `index < BITS`; outside it panics (`none`)
+    while `bit` returns `false` — the documented divergence recorded in the evidence. -/
+theorem bit_ct_spec (bits : ℕ) (a : List ℕ) (i : ℕ) :
+    (i < bits → bitCt bits a i = some (bit bits a i))
+    ∧ (bits ≤ i → bitCt bits a i = none ∧ bit bits a i = false) := by
+  refine ⟨bitCt_eq bits a i, fun h => ?_⟩
+  unfold bitCt bit
+  rw [if_neg (by omega), if_pos (by omega)]
+  exact ⟨rfl, rfl⟩
+
+/-- `Integer::is_multiple_of` is divisibility, including the zero divisor (`0 ∣ a ↔ a = 0`). -/
+theorem is_multiple_of_spec (a b : ℕ) : isMultipleOf a b = true ↔ b ∣ a := isMultipleOf_iff a b
+
+/-- `is_odd` / `is_even` (through `bit(0)`) are the parity of the number at every non-empty width. -/
+theorem is_odd_spec (bits a : ℕ) (h : 0 < bits) :
+    isOdd bits a = decide (a % 2 = 1) ∧ isEven bits a = decide (a % 2 = 0) := by
+  unfold isEven isOdd
+  rw [if_neg (by omega)]
+  refine ⟨rfl, ?_⟩
+  by_cases h1 : a % 2 = 1
+  · simp [h1]
+  · have : a % 2 = 0 := by omega
+    simp [this]
+
+/-- `MulAdd::mul_add(x, a, b)` (two wrapping operators) is `x·a + b mod 2^bits`. -/
+theorem mul_add_spec (bits x a b : ℕ) : mulAdd bits x a b = (x * a + b) % 2 ^ bits := mulAdd_eq bits x a b
+
+/-- `PrimInt::pow(a, e: u32)`: `a^e mod 2^bits` when the exponent fits the width; the conversion
+    `Uint::from(e)` panics otherwise (both sides of the in-process comparison panic there). -/
+theorem pow_u32_spec (bits a e : ℕ) :
+    powU32 bits a e = if e < 2 ^ bits then some (a ^ e % 2 ^ bits) else none := powU32_eq bits a e
+
+/-- trait default `prev_multiple_of`: the greatest multiple of `b` not above `a`; panics iff `b = 0`. -/
+theorem prev_multiple_of_spec (bits a b : ℕ) (ha : a < 2 ^ bits) :
+    (0 < b → ∃ r, prevMultipleOf bits a b = some r ∧ b ∣ r ∧ r ≤ a ∧ a < r + b)
+    ∧ (b = 0 → prevMultipleOf bits a b = none) := by
+  refine ⟨fun hb => prevMultipleOf_spec bits a b hb ha, fun hb => ?_⟩
+  subst hb; rfl
+
+/-- trait default `next_multiple_of` (wrapping `+`): the least multiple `n` of `b` with `a ≤ n`,
+    reduced modulo `2^bits` (so it is `n` itself whenever `n` fits); panics iff `b = 0`. -/
+theorem next_multiple_of_spec (bits a b : ℕ) (ha : a < 2 ^ bits) (hb' : b < 2 ^ bits) :
+    (0 < b → ∃ n, b ∣ n ∧ a ≤ n ∧ n < a + b ∧ nextMultipleOf bits a b = some (n % 2 ^ bits))
+    ∧ (b = 0 → nextMultipleOf bits a b = none) := by
+  refine ⟨fun hb => nextMultipleOf_spec bits a b hb ha hb', fun hb => ?_⟩
+  subst hb; rfl
+
+/-- `PrimInt::swap_bytes` (and `to_be`/`from_be` on a little-endian host) at byte-aligned widths:
+    never fails, reverses the byte string, and is an involution. -/
+theorem swap_bytes_spec (k v : ℕ) (hv : v < 2 ^ (8 * k)) :
+    ∃ r, swapBytes (8 * k) v = some r ∧ r < 2 ^ (8 * k) ∧ leBytes k r = (leBytes k v).reverse
+      ∧ swapBytes (8 * k) r = some v := swapBytes_spec k v hv
+
+/-- `FromPrimitive::from_*` / `NumCast::from`: `Some(n)` exactly for `0 ≤ n < 2^bits`. -/
+theorem from_prim_spec (bits : ℕ) (n : ℤ) :
+    (0 ≤ n ∧ n < 2 ^ bits → fromPrim bits n = some n.toNat)
+    ∧ (n < 0 ∨ 2 ^ bits ≤ n → fromPrim bits n = none) := by
+  unfold fromPrim
+  constructor
+  · rintro ⟨h1, h2⟩
+    rw [if_pos ⟨h1, by
+      have : ((n.toNat : ℕ) : ℤ) < ((2 ^ bits : ℕ) : ℤ) := by push_cast; omega
+      exact_mod_cast this⟩]
+  · intro h
+    rw [if_neg]
+    rintro ⟨h1, h2⟩
+    rcases h with h | h
+    · omega
+    · have : ((2 ^ bits : ℕ) : ℤ) ≤ ((n.toNat : ℕ) : ℤ) := by push_cast; omega
+      have : 2 ^ bits ≤ n.toNat := by exact_mod_cast this
+      omega
+
+/-- `ToPrimitive::to_*`: `Some(a)` exactly when `a` fits the target's `cap` value bits. -/
+theorem to_prim_spec (cap a : ℕ) : toPrim cap a = if a < 2 ^ cap then some a else none := rfl
+
+/-- iterator `Product` is the wrapped mathematical product (at width 0 everything is 0). -/
+theorem product_spec (bits : ℕ) (l : List ℕ) : product bits l = l.prod % 2 ^ bits := product_eq bits l
+
+/-- iterator `Sum` is the wrapped mathematical sum. -/
+theorem sum_spec (bits : ℕ) (l : List ℕ) : sum bits l % 2 ^ bits = l.sum % 2 ^ bits := by
+  unfold sum
+  rw [foldl_wadd, Nat.zero_add]
+
+/-! Non-vacuity: concrete instances evaluated by the kernel (a 65-bit pair that differs only in the low
+limb while the high limbs are equal; a pair ordered by the high limb against the low limb). -/
+example : ctGt [5, 1] [7, 1] = false ∧ ctLt [5, 1] [7, 1] = true ∧ ctGt [0, 1] [W - 1, 0] = true := by
+  decide +kernel
+example : swapBytes 16 0x1234 = some 0x3412 ∧ swapBytes 12 0x123 = none := by decide +kernel
+example : nextMultipleOf 8 0xfe 7 = some 3 ∧ prevMultipleOf 8 0x17 5 = some 0x14 := by decide +kernel
 
 end Ruint.C20
